@@ -30,6 +30,7 @@ MANIFEST = {
             "harness snapshot (content digest of sections, labels, fixups, relocations, nodes).",
 }
 MODS = ["AsmjitVerif.Props.C14"]
+A64_NAMES = {}      # instruction id -> name (filled from the typed overloads of a64emitter.h on every run)
 INVALID = 0xFFFFFFFF
 
 
@@ -54,6 +55,7 @@ class Gen:
         self.corpus = corpus          # [(inst, kinds, ops, ctx)] of calls the real encoder accepted in the probe pass
         self.last_meta = None
         self.a64 = arch == "a64"
+        self.byelem = sorted({f[0] for f in forms if f[1] in A64_BY_ELEMENT_H_RM4 and f[2] == ("Vec", "Vec", "Vec")}) if self.a64 else []
         self.labels = 0
         self.sections = 1
 
@@ -198,7 +200,16 @@ class Gen:
             extra = r.choice(("16.%d" % r.randrange(8), "16.%d" % r.randrange(8), "6.1", "5.1", "%d.%d" % (r.randrange(32), r.randrange(40))))
         if r.random() < 0.2:
             cmt = 1
-        if stream < 0.2 and self.a64:
+        if self.a64 and self.byelem and r.random() < 0.12:
+            # vector x indexed-element forms with half-precision/halfword elements: the indexed register only has a 4-bit field
+            inst = r.choice(self.byelem)
+            t = r.choice((11, 11, 10))
+            idx = r.randrange(8) if r.random() < 0.9 else r.randrange(16)
+            ops = ["v%d.%d.2.-1" % (t, r.randrange(32)), "v%d.%d.2.-1" % (t, r.randrange(32)),
+                   "v11.%d.%d.%d" % (r.randrange(32), 2 if r.random() < 0.85 else 3, idx)]
+            if r.random() < 0.3:     # widening forms: 4s destination
+                ops[0] = "v11.%d.3.-1" % r.randrange(32)
+        elif stream < 0.2 and self.a64:
             # AArch64 has no operand validator: operand kinds (and register types) are kept, every other field is perturbed
             inst, name, kinds = r.choice(self.forms)
             ctx = self.ctx()
@@ -354,7 +365,12 @@ def gen_sessions(rng, tier, forms_by_arch, corpus=None):
             if rng.random() < 0.5:
                 ops.append(g.emit(emitter))
             else:
-                ops.append(g.other())
+                call = g.other()
+                if rng.random() < 0.3 and not call.startswith("cpool"):
+                    # one-shot state pending while a non-instruction call is made (a.k(k1) / set_inline_comment, then bind/align/...)
+                    call = "@%x,%s,%d %s" % (rng.choice((0, 0, 0x2000, 0x4000, 0x10, 0x1000)),
+                                              rng.choice(("-", "-", "16.%d" % rng.randrange(8), "6.1")), rng.choice((1, 1, 0)), call)
+                ops.append(call)
         if arch != "a64" and emitter == "asm" and rng.random() < 0.08:
             ops += g.short_jump_overflow()
             ops.append(g.emit(emitter))
@@ -367,15 +383,15 @@ def gen_sessions(rng, tier, forms_by_arch, corpus=None):
 # ------------------------------------------------------------------------------------------------------------------
 # answers of the harness
 
-ANS_RE = re.compile(r"^(\d+) H (\S+) T ([01]) O (\S+) (\S+) (\S+) ([01]) B (.*?) A (.*?) S (.*?) X (.*)$")
+ANS_RE = re.compile(r"^(\d+) H (\S+) T ([01]) O (\S+) (\S+) (\S+) ([01]) P (\S+) (\S+) (\S+) ([01]) B (.*?) A (.*?) S (.*?) X (.*)$")
 
 
 def parse_answer(a):
     m = ANS_RE.match(a)
     if not m:
         return None
-    d = {"ret": int(m.group(1)), "handled": m.group(2), "thrown": m.group(3), "os": m.group(4, 5, 6, 7), "B": m.group(8), "A": m.group(9),
-         "S": m.group(10), "X": m.group(11)}
+    d = {"ret": int(m.group(1)), "handled": m.group(2), "thrown": m.group(3), "os": m.group(4, 5, 6, 7), "pre": m.group(8, 9, 10, 11),
+         "B": m.group(12), "A": m.group(13), "S": m.group(14), "X": m.group(15)}
     for k in ("B", "A", "S"):
         d[k + "kv"] = dict(w.split("=", 1) for w in d[k].split())
     return d
@@ -391,9 +407,22 @@ def label_refs(op_words, a64):
     return refs
 
 
-def phys_ids(op_words):
-    """AArch64: (register id as encoded, 31) of every register named by the operands; zr (63) is encoded as 31"""
+# Arm ARM, "vector x indexed element" encodings whose element size is H: the index is H:L:M, so the M bit is not available for the
+# register number and <Vm> is restricted to V0-V15 (FCMLA by element and the dot products keep the full 5-bit M:Rm)
+A64_BY_ELEMENT_H_RM4 = {"fmla", "fmls", "fmul", "fmulx", "mla", "mls", "mul", "sqdmulh", "sqrdmulh", "sqrdmlah", "sqrdmlsh",
+                        "smlal", "smlal2", "smlsl", "smlsl2", "smull", "smull2", "umlal", "umlal2", "umlsl", "umlsl2", "umull", "umull2",
+                        "sqdmlal", "sqdmlal2", "sqdmlsl", "sqdmlsl2", "sqdmull", "sqdmull2", "fmlal", "fmlal2", "fmlsl", "fmlsl2"}
+
+
+def phys_ids(op_words, inst_name=None):
+    """AArch64: (register id as encoded, largest id the field holds) of every register named by the operands; zr (63) is encoded as 31;
+    the indexed H operand of the by-element multiplies has a 4-bit register field"""
     out = []
+    toks = op_words[5:]
+    if inst_name in A64_BY_ELEMENT_H_RM4 and len(toks) == 3 and all(t[0] == "v" for t in toks):
+        p = toks[2][1:].split(".")
+        if int(p[2]) == 2 and int(p[3]) >= 0 and int(p[1]) < 256:
+            out.append((int(p[1]), 15))
 
     def add(t, i):
         if i >= 256:
@@ -418,30 +447,46 @@ def phys_ids(op_words):
     return out
 
 
-def monitor_line(sess_hdr, op, d):
+def opw(op):
+    """words of a call without the optional one-shot prefix `@opts,extra,comment`"""
     w = op.split()
+    return w[1:] if w and w[0].startswith("@") else w
+
+
+def pre_of(op):
+    w = op.split()
+    return w[0] if w and w[0].startswith("@") else None
+
+
+def monitor_line(sess_hdr, op, d):
+    w = opw(op)
     arch, emitter, handler = sess_hdr[1], sess_hdr[2], sess_hdr[3]
-    kind = "emit" if w[0] == "emit" else "holder" if w[0] == "newsec" else "finalize" if w[0] == "finalize" else "call"
+    kind = "emit" if w[0] == "emit" else "holder" if w[0] == "newsec" else "finalize" if w[0] == "finalize" else \
+        "bind" if w[0] == "bind" and emitter == "asm" else "call"
     refs, phys = [], []
     if w[0] == "emit":
         refs = label_refs(w, arch == "a64")
         if arch == "a64" and emitter == "asm":
-            phys = phys_ids(w)
-    return "mon %s %d %s %d %s %s %s %s %s %s ; %s ; %s ; %s ; %s ; %s" % (
+            phys = phys_ids(w, A64_NAMES.get(int(w[1]) & 0xFFFF))
+    return "mon %s %d %s %d %s %s %s %s %s %s %s %s %s %s ; %s ; %s ; %s ; %s ; %s" % (
         kind, 1 if emitter == "asm" else 0, handler, d["ret"], d["handled"], d["thrown"], d["os"][0], d["os"][1], d["os"][2], d["os"][3],
-        d["B"], d["A"], d["S"], ",".join(map(str, refs)) or "-", ",".join("%d:%d" % p for p in phys) or "-")
+        d["pre"][0], d["pre"][1], d["pre"][2], d["pre"][3], d["B"], d["A"], d["S"], ",".join(map(str, refs)) or "-", ",".join("%d:%d" % p for p in phys) or "-")
 
 
 def model_line(sess_hdr, op, d):
     """the op as the model driver reads it: the encoder's outcome of an `emit` is taken from the implementation"""
-    w = op.split()
+    w = opw(op)
+    pre = pre_of(op)
+    if pre is not None:
+        o, x, c = pre[1:].split(",")
+        return "@%s,%d,%s %s" % (o, 0 if x == "-" else 1, c, model_line(sess_hdr, " ".join(w), d))
     if w[0] == "cpool":
         # the pool the harness builds: `count` distinct constants of one size, laid out in insertion order; alignment = the item size
         isz, cnt = int(w[2]), min(int(w[3]), 16)
         data = bytes((0xA0 + i + k) & 0xFF for i in range(cnt) for k in range(isz))
         return "cpool %s %d %s" % (w[1], isz if cnt else 0, data.hex() or "-")
     if w[0] != "emit":
-        return op
+        return " ".join(w)
     refs = label_refs(w, sess_hdr[1] == "a64")
     pre = "%s %d %s" % (w[2], 0 if w[3] == "-" else 1, w[4])
     head = "emit %s %s" % (",".join(map(str, refs)) or "-", pre)
@@ -463,9 +508,10 @@ def model_expect(d, unknown_code=False):
     a = d["Akv"]
     if unknown_code and d["ret"] != 0:
         return "E O %s %s %s %s sec=%s lab=%s bnd=%s rel=%s fix=%s cur=%s off=%s bh=%s" % (
-            d["os"][0], d["os"][1], d["os"][2], d["os"][3], a["sec"], a["lab"], a["bnd"], a["rel"], a["fix"], a["cur"], a["off"], a["bh"])
+            d["os"][0], "0" if d["os"][1] == "0" else "1", "0", d["os"][3], a["sec"], a["lab"], a["bnd"], a["rel"], a["fix"], a["cur"], a["off"], a["bh"])
+    # extra register: the model keeps "present / absent" only
     return "%d O %s %s %s %s sec=%s lab=%s bnd=%s rel=%s fix=%s cur=%s off=%s bh=%s" % (
-        d["ret"], d["os"][0], d["os"][1], d["os"][2], d["os"][3], a["sec"], a["lab"], a["bnd"], a["rel"], a["fix"], a["cur"], a["off"], a["bh"])
+        d["ret"], d["os"][0], "0" if d["os"][1] == "0" else "1", "0", d["os"][3], a["sec"], a["lab"], a["bnd"], a["rel"], a["fix"], a["cur"], a["off"], a["bh"])
 
 
 def model_got(m, unknown_code=False):
@@ -542,7 +588,7 @@ def judge(h, sessions, names):
     tainted = set()
     hdr = None
     for i, (op, a) in enumerate(zip(flat, impl)):
-        w = op.split()
+        w = opw(op)
         if w[0] == "new":
             hdr = w
             if w[2] == "asm":
@@ -604,7 +650,7 @@ def judge(h, sessions, names):
 
 
 def bad_key(names, sess_hdr, op, d, verdict):
-    w = op.split()
+    w = opw(op)
     clause = verdict.split()[1] if verdict.startswith("BAD ") else verdict
     opname = w[0]
     if opname == "cpool" and clause == "atomic" and errname(names, d["ret"]) == "InvalidDisplacement":
@@ -642,6 +688,7 @@ def run(res):
         names = gen_c14.error_enum(R)
         vlib.gen_write("AsmjitVerif/Gen/ErrorCodes.lean", gen_c14.render_error_codes(names))
         forms_by_arch = {a: gen_c14.forms(R, a) for a in ("x86", "a64")}
+        A64_NAMES.update({f[0]: f[1] for f in forms_by_arch["a64"][0]})
     except gen_c14.TranslateError as e:
         res.violation("translator tools/gen_c14.py no longer understands the sources: %s" % e, {"unchecked": str(e)}, False, key="obligation")
         return
@@ -687,6 +734,8 @@ def run(res):
         ["new x64 asm thr 1", "label", "emit %d 0 - 0 r6.0 ml7,0,0,0,0,0,8,0,0,0,0" % mov],
         ["new a64 asm rec 0", "emit %d 0 - 0 v11.0.3.-1 v11.1.3.-1 v11.40.3.-1" % add3, "emit %d 0 - 0 r6.1 r6.40" % cmp2],
         ["new a64 asm thr 0", "embed 01", "align 0 8", "align 1 8"],
+        ["new x64 asm thr 1", "label", "@0,-,1 bind 0", "@2000,16.2,1 bind 0", "@0,-,1 bind 9", "@0,-,1 align 0 3", "@10,-,1 elabel 7 4", "@0,6.1,1 section foreign"],
+        ["new a64 asm rec 0", "label", "@0,-,1 bind 3", "@0,-,1 bind 0", "@0,-,1 bind 0", "@0,-,1 embed 01", "@0,-,1 align 0 8"],
         ["new a64 bld rec 0", "label", "bind 5", "bind 0", "bind 0"],
         ["new x64 asm rec 1", "label", "label", "embed 01", "bind 0", "cpool 0 8 2", "cpool 7 8 2", "cpool 1 8 2", "cpool 1 4 1"],
         ["new a64 bld thr 0", "label", "label", "embed 01", "bind 0", "cpool 0 8 2", "cpool 1 8 2"],
@@ -727,7 +776,7 @@ def run(res):
     hdr = None
     distinct = set()
     for op, a in zip(flat, impl):
-        w = op.split()
+        w = opw(op)
         if w[0] == "new":
             hdr = w
             continue
